@@ -8,7 +8,16 @@ typedef struct { uint64_t id; int64_t interval; int64_t nextExecution; bool canc
 #define Record_DEFAULT ((Record){0, 0, false})
 #define HeapItem_DEFAULT ((HeapItem){0, 0})
 #define PeriodicTimer_DEFAULT ((PeriodicTimer){0, 0, 0, false, 0})
+/* std::swap of two heap items. In the proofs with real heap storage the swap also moves two ghost POSITION TRACKERS (G_ti, G_ti2): "where is the item
+ * that started at position P now" - the witness form of "the loops only permute the items" (multiset clauses H3u/H6u). */
+size_t G_ti, G_ti2;
+#if defined(HEAP_SYMBOLIC) || defined(HEAP_CONCRETE)
+#define IORA_TRACK_(g, i, j) if ((g) == (i)) (g) = (j); else if ((g) == (j)) (g) = (i);
+#define IORA_SWAP_HeapItem(iora_x, iora_y) do { HeapItem *iora_pa = &(iora_x), *iora_pb = &(iora_y); HeapItem iora_t = *iora_pa; *iora_pa = *iora_pb; *iora_pb = iora_t; \
+    size_t iora_i = (size_t)(iora_pa - &self->_heap.a[0]), iora_j = (size_t)(iora_pb - &self->_heap.a[0]); IORA_TRACK_(G_ti, iora_i, iora_j) IORA_TRACK_(G_ti2, iora_i, iora_j) } while (0)
+#else
 #define IORA_SWAP_HeapItem(a, b) do { HeapItem iora_t = (a); (a) = (b); (b) = iora_t; } while (0)
+#endif
 enum { TimerError_None = 0, TimerError_ServiceStopped, TimerError_InvalidTimeout, TimerError_ResourceExhausted, TimerError_SystemError };
 
 /* ---- witness-key maps (DESIGN 2.2 iora_map1): state is tracked for ONE arbitrary ghost key GID; a lookup of any other key answers
@@ -122,7 +131,16 @@ static inline void iora_heap_pop_back(iora_heap *h) { IORA_ASSERT(0, "abstract h
 
 typedef struct { bool enableStatistics; bool enableDetailedLogging; } TimerServiceConfig;
 typedef struct { int unused; } TimerStats;
-typedef struct { iora_recmap _records; iora_permap _periodicTimers; iora_heap _heap; TimerServiceConfig _config; TimerStats _stats; bool _accepting; int _mutex; } TimerService;
+typedef struct { bool joinable; } iora_thread;                     /* std::thread _thread */
+typedef struct { bool success; int newState; } iora_lcr;          /* common::LifecycleResult without message / stats */
+static inline iora_lcr iora_lcr_make(bool s, int st) { iora_lcr r; r.success = s; r.newState = st; return r; }
+typedef struct { iora_recmap _records; iora_permap _periodicTimers; iora_heap _heap; TimerServiceConfig _config; TimerStats _stats; bool _accepting; int _mutex;
+                 int _lifecycleState; bool _running; iora_thread _thread; } TimerService;
+static inline bool iora_cas_bool(bool *x, bool *expected, bool v) { if ((*x != 0) == (*expected != 0)) { *x = v; return true; } *expected = *x; return false; }
+static inline bool iora_cas_int(int *x, int *expected, int v) { if (*x == *expected) { *x = v; return true; } *expected = *x; return false; }
+size_t G_ts_seq, G_ts_join_at, G_ts_cleanup_at, G_ts_drains; _Bool G_accepting_at_join; int G_drain_outcome;
+static inline bool iora_thread_joinable(iora_thread *t) { return t->joinable; }
+static inline void iora_thread_join(iora_thread *t) { t->joinable = false; G_ts_seq++; G_ts_join_at = G_ts_seq; }
 size_t G_locks, G_pokes, G_errors; int G_last_error;
 static inline void TimerService_poke(TimerService *self) { (void)self; G_pokes++; }
 static inline void TimerService_handleError(TimerService *self, int code, const char *msg, int e) { (void)self; (void)msg; (void)e; G_errors++; G_last_error = code; }
@@ -134,18 +152,25 @@ size_t GI;
 #define HPAR(i) (((i) - 1) / 2)
 #define HA_(i) (self->_heap.a[i])
 #define HLE(i, j) (HA_(i).tp <= HA_(j).tp)
+HeapItem G_tv;      /* value of the item tracked by G_ti */
+_Bool G_two;        /* the second tracker is in use (a second, different start position) */
+#define HTRACK_INV /* the tracked item is still in the vector, unchanged; two tracked items never share a position */ \
+  __CPROVER_loop_invariant(G_ti < self->_heap.n && HA_(G_ti).tp == G_tv.tp && HA_(G_ti).id == G_tv.id) \
+  __CPROVER_loop_invariant(!G_two || (G_ti2 < self->_heap.n && G_ti2 != G_ti))
 #ifdef HEAP_SYMBOLIC
 #define IORA_LOOP_TimerService_siftUp_1 IORA_LC( \
-  __CPROVER_assigns(idx, __CPROVER_object_whole(self->_heap.a)) \
+  __CPROVER_assigns(idx, G_ti, G_ti2, __CPROVER_object_whole(self->_heap.a)) \
   __CPROVER_loop_invariant(idx < self->_heap.n) \
+  HTRACK_INV \
   /* (a) order everywhere except at the hole            */ __CPROVER_loop_invariant((GI >= 1 && GI < self->_heap.n && GI != idx) ==> HLE(HPAR(GI), GI)) \
   /* (b) children of the hole vs. the hole's parent     */ __CPROVER_loop_invariant((GI >= 1 && GI < self->_heap.n && idx >= 1 && HPAR(GI) == idx) ==> HLE(HPAR(idx), GI)) \
   /* (c) order at parent(GI) while the hole is below it */ __CPROVER_loop_invariant((GI >= 1 && GI < self->_heap.n && HPAR(GI) >= 1 && idx > HPAR(GI)) ==> HLE(HPAR(HPAR(GI)), HPAR(GI))) \
   __CPROVER_decreases(idx))
 #define HKID_OK(p, c) (!((c) < self->_heap.n) || HLE(p, c))
 #define IORA_LOOP_TimerService_siftDown_1 IORA_LC( \
-  __CPROVER_assigns(idx, __CPROVER_object_whole(self->_heap.a)) \
+  __CPROVER_assigns(idx, G_ti, G_ti2, __CPROVER_object_whole(self->_heap.a)) \
   __CPROVER_loop_invariant(idx < self->_heap.n && self->_heap.n <= ((size_t)1 << 40)) \
+  HTRACK_INV \
   /* (a) order everywhere except hole -> its children    */ __CPROVER_loop_invariant((GI >= 1 && GI < self->_heap.n && HPAR(GI) != idx) ==> HLE(HPAR(GI), GI)) \
   /* (c) hole == GI: GI's children vs. GI's parent       */ __CPROVER_loop_invariant((GI == idx && GI >= 1) ==> (HKID_OK(HPAR(GI), 2 * GI + 1) && HKID_OK(HPAR(GI), 2 * GI + 2))) \
   /* (d) order at GI's children while the hole is above  */ __CPROVER_loop_invariant((idx < GI && GI < self->_heap.n) ==> (HKID_OK(GI, 2 * GI + 1) && HKID_OK(GI, 2 * GI + 2))) \
@@ -178,3 +203,15 @@ size_t G_n0, G_pops, G_sifts, G_sift_idx;
 #else
 #define IORA_LOOP_TimerService_collectDueLocked_1 IORA_LC()
 #endif
+
+/* environment model of the callee drain(timeoutMs) as seen by stop(): the three outcomes of its text. Outcome 2 (timed out) is the state the extracted
+ * recovery block of drain() produces from Draining (proof lifecycle_stop, clause ST0): Running again and ACCEPTING again ("so drain can be retried"). */
+static inline iora_lcr TimerService_drain(TimerService *self, uint32_t timeoutMs)
+{
+  (void)timeoutMs; G_ts_drains++;
+  if (self->_lifecycleState != LifecycleState_Running) return iora_lcr_make(false, self->_lifecycleState);
+  G_drain_outcome = nondet_bool() ? 1 : 2;
+  if (G_drain_outcome == 1) { self->_lifecycleState = LifecycleState_Draining; self->_accepting = false; return iora_lcr_make(true, LifecycleState_Draining); }
+  self->_lifecycleState = LifecycleState_Running; self->_accepting = true; return iora_lcr_make(false, LifecycleState_Running);
+}
+static inline void TimerService_cleanup(TimerService *self) { G_ts_seq++; G_ts_cleanup_at = G_ts_seq; G_accepting_at_join = self->_accepting; }
